@@ -56,8 +56,9 @@ Obligation kinds: inv_init, inv_preserved, post_return, post_raise, callee_pre (
 contract adds, e.g. `iter`); each is emitted through `vk.ensures_smt` (validity of the claim under the
 path condition, z3 / cvc5), name `<prop>/<contract>/<function>/<path>/<kind>/<clause>`.
 
-Bounded cross-check (labelled `bounded`, never counted): `bounded_runs` executes the UNTRANSFORMED real
-function with the same stubs on concrete decision scripts (all scripts up to 3 iterations).
+Bounded cross-check (labelled `bounded`, never counted): `concrete_run` executes the UNTRANSFORMED real
+function with the same stubs on one concrete decision script (Path.concrete: the stubs' fresh Booleans /
+integers are popped from the script); the contracts enumerate all scripts up to 3 iterations.
 """
 from __future__ import annotations
 
@@ -212,7 +213,7 @@ class Path:
             claim = claim.z
         if isinstance(claim, bool):
             claim = z3.BoolVal(claim)
-        s.claims.append({"kind": kind, "name": name, "claim": claim, "pc": list(s.pc)})
+        s.claims.append({"kind": kind, "name": name, "claim": claim, "pc": list(s.pc), "at": s.id})
 
     def event(s, kind, **payload):
         e = {"kind": kind, "t": len(s.events), **payload}
@@ -367,7 +368,7 @@ class Tok:
 
     def __init__(s, kind, z=None, **gh):
         s.kind = kind
-        s.id = next(_tokn)
+        s.id = next(CTX._n) if CTX is not None else next(_tokn)  # path-local numbering: stable obligation text
         s.z = z if z is not None else z3.Const(f"{kind}#{s.id}", Val)
         s.gh = gh
 
@@ -382,10 +383,17 @@ class Tok:
 
 
 def zval(x):
-    """z3 Val term of a program value (tokens only)"""
+    """z3 Val term of a program value: the token's constant; any other Python object gets its own
+    constant (per path, keyed by identity) about which nothing is known -- an equality claim between a
+    token and a foreign object is therefore refuted, not an engine error"""
     if isinstance(x, Tok):
         return x.z
-    raise Unsupported(f"abstract value expected, got {type(x).__name__}")
+    P = cur()
+    if not hasattr(P, "_foreign"):
+        P._foreign = {}
+    if id(x) not in P._foreign:
+        P._foreign[id(x)] = (x, z3.Const(f"py:{type(x).__name__}#{len(P._foreign)}", Val))
+    return P._foreign[id(x)][1]
 
 
 def same(a, b):
@@ -595,8 +603,10 @@ def havoc_sets(loop, localnames, nested_locals=()):
 
 def header_of(node):
     if isinstance(node, ast.For):
-        return f"for {ast.unparse(node.target)} in {ast.unparse(node.iter)}"
-    return f"while {ast.unparse(node.test)}"
+        stub = ast.For(target=node.target, iter=node.iter, body=[ast.Pass()], orelse=[])
+    else:
+        stub = ast.While(test=node.test, body=[ast.Pass()], orelse=[])
+    return ast.unparse(ast.fix_missing_locations(stub)).splitlines()[0].rstrip(":")
 
 
 def _call(lab, meth, *args):
@@ -661,14 +671,17 @@ class _Cut(ast.NodeTransformer):
         return out
 
     def _cut(s, node):
-        hdr = header_of(node)
-        if hdr not in s.headers:
+        import fnmatch
+
+        real_hdr = header_of(node)
+        hdr = next((h for h in s.headers if h == real_hdr or ("*" in h and fnmatch.fnmatchcase(real_hdr, h))), None)
+        if hdr is None:
             return s.generic_visit(node)
         lab = s.headers[hdr]
         if hdr in s.found:
             raise Unsupported(f"loop header {hdr!r} is not unique")
         assigned, mutated = havoc_sets(node, s.localnames)
-        s.found[hdr] = {"label": lab, "assigned": assigned, "mutated": mutated, "line": node.lineno}
+        s.found[hdr] = {"label": lab, "header": real_hdr, "assigned": assigned, "mutated": mutated, "line": node.lineno}
         node = s.generic_visit(node)  # inner cut loops, yields
         node.body = s._continues(node.body, lab) + [_call(lab, "loop_back", _locals())]
         pre = [_call(lab, "loop_entry", _locals())]
@@ -793,7 +806,8 @@ UNBOUND = object()
 
 class LoopSpec:
     """sidecar contract of one cut loop.
-    header : loop header text as in the source ("for iteration in range(maxiter)")
+    header : loop header text as in the source ("for iteration in range(maxiter)"); `*` is a wildcard
+             ("for iteration in *": the loop is named by its target, the iterable is whatever the code says)
     inv(I, P, loc, k, entry) : the invariant Inv(k); k is a z3 Int term (number of completed iterations);
                                `k0` is True iff k is literally 0 (entry state: loop-assigned names may be unbound)
     fresh(P, name, old, k)  : optional custom havoc value for a name (default by type of the old value)
@@ -862,6 +876,7 @@ class Runtime:
         P.modes[lab] = mode
         st = P.loops[lab] = {"mode": mode, "k": z3.IntVal(0), "new": {}, "t_entry": len(P.events)}
         st["entry"] = spec.on_entry(P, loc) or {}
+        st["ghost_head"] = dict(P.ghost)  # ghost state at the loop head of the iteration this path runs
         spec.inv(InvCtx(P, "inv_init", False), P, loc, z3.IntVal(0), True, st["entry"])
 
     def iter_expr(s, lab, it):
@@ -902,6 +917,7 @@ class Runtime:
         if s.assume_inv:
             spec.inv(InvCtx(P, "assume", True), P, {**loc, **new}, k, False, st["entry"])
         st["t_body"] = len(P.events)
+        st["ghost_head"] = dict(P.ghost)
 
     def has(s, lab, name):
         return name in s._st(lab)["new"]
@@ -1025,13 +1041,21 @@ def execute(thunk):
 def emit(vk, fname, results, kinds=None):
     """every claim of every feasible path becomes one vk obligation (validity under the path condition)"""
     n = 0
+    seen = set()
     for P, outcome in results:
         if outcome[0] == "infeasible":
             continue
         for c in P.claims:
             if kinds and c["kind"] not in kinds:
                 continue
-            vk.ensures_smt(f"{fname}/{P.id}/{c['kind']}/{c['name']}", c["claim"], assumptions=c["pc"])
+            # claims are named by the decisions taken *so far*: the common prefix of several paths yields the
+            # same obligation (same claim, same path condition) only once
+            name = f"{fname}/{c.get('at', P.id)}/{c['kind']}/{c['name']}"
+            key = (name, str(c["claim"]), tuple(str(x) for x in c["pc"]))
+            if key in seen:
+                continue
+            seen.add(key)
+            vk.ensures_smt(name, c["claim"], assumptions=c["pc"])
             n += 1
         for t in P.notes:
             vk.note(t)
@@ -1083,3 +1107,25 @@ def outcome_text(outcome):
     if outcome[0] == "backedge":
         return f"back edge {outcome[1]}"
     return outcome[0]
+
+
+def attach_replays(vk, fname, fails):
+    """E2 replay: a refuted obligation is confirmed on the UNTRANSFORMED function -- `fails` are the concrete
+    decision scripts of the bounded cross-check on which a postcondition is violated
+    (dicts: input, outcome, bad=[violated clauses]).  Attached to the refuted obligations of `fname`."""
+    if not fails:
+        return
+    for o in vk.obl:
+        if o["status"] != "refuted" or f"/{fname}/" not in o["name"]:
+            continue
+        clause = o["name"].rsplit("/", 1)[-1]
+        hit = next((f for f in fails if any(b.endswith(clause) for b in f["bad"])), fails[0])
+        o["replay"] = {
+            "obligation": o["name"],
+            "kind": "E2",
+            "confirmed": True,
+            "point": hit["input"],
+            "expected": "postconditions hold on the untransformed function with concrete stubs; violated: " + "; ".join(hit["bad"][:4]),
+            "actual": hit["outcome"],
+            "verifier_output": o["detail"],
+        }
